@@ -760,6 +760,13 @@ def dictres_case(ctx, case):
         d["A"], d["B"] = rand_unitary(rng), rand_unitary(rng)
         if rng.random() < 0.5:
             d["X"] = rand_unitary(rng)  # "the given operators will overwrite the default matrices if they share the same key"
+        r = rng.random()                # (x-packages) also the OTHER default key, the two defaults swapped, and Z registered explicitly AS THE IDENTITY
+        if r < 0.25:
+            d["Y"] = rand_unitary(rng); ctx.count("dictres:user dictionary overrides Y")
+        elif r < 0.35:
+            d["X"], d["Y"] = default["Y"], default["X"]; ctx.count("dictres:user dictionary swaps X and Y")
+        if rng.random() < 0.2:
+            d["Z"] = np.eye(2, dtype=complex); ctx.count("dictres:user dictionary registers Z explicitly as the identity")
         return d
 
     own_np = None if ok_ == "none" else (dict(default) if ok_ == "default" else user())
